@@ -98,23 +98,37 @@ func c11Templates() []c11Template {
 		{name: "sort_desc", instantOnly: true, build: func(x refmodel.Expr) refmodel.Expr { return va("sort_desc", nil, x) }},
 		{name: "sum by(a)(sum by(a,b))", build: func(x refmodel.Expr) refmodel.Expr { return va("sum", g(false, "a"), va("sum", g(false, "a", "b"), x)) }},
 		{name: "sum by(a)(sum by(b,a))", build: func(x refmodel.Expr) refmodel.Expr { return va("sum", g(false, "a"), va("sum", g(false, "b", "a"), x)) }},
-		{name: "max by(b)(sum by(c,b,a))", build: func(x refmodel.Expr) refmodel.Expr { return va("max", g(false, "b"), va("sum", g(false, "c", "b", "a"), x)) }},
-		{name: "count by(b,a)(min by(b,a))", build: func(x refmodel.Expr) refmodel.Expr { return va("count", g(false, "b", "a"), va("min", g(false, "b", "a"), x)) }},
+		{name: "max by(b)(sum by(c,b,a))", build: func(x refmodel.Expr) refmodel.Expr {
+			return va("max", g(false, "b"), va("sum", g(false, "c", "b", "a"), x))
+		}},
+		{name: "count by(b,a)(min by(b,a))", build: func(x refmodel.Expr) refmodel.Expr {
+			return va("count", g(false, "b", "a"), va("min", g(false, "b", "a"), x))
+		}},
 		{name: "sum by(b)(sum by(a))", build: func(x refmodel.Expr) refmodel.Expr { return va("sum", g(false, "b"), va("sum", g(false, "a"), x)) }},
 		{name: "max without(b)(sum by(a,b))", build: func(x refmodel.Expr) refmodel.Expr { return va("max", g(true, "b"), va("sum", g(false, "a", "b"), x)) }},
 		{name: "topk(1, sum by(a))", build: func(x refmodel.Expr) refmodel.Expr { return tk("topk", 1, nil, va("sum", g(false, "a"), x)) }},
 		{name: "sum(topk(2))", build: func(x refmodel.Expr) refmodel.Expr { return va("sum", nil, tk("topk", 2, nil, x)) }},
-		{name: "count by(a)(max by(a,b))", build: func(x refmodel.Expr) refmodel.Expr { return va("count", g(false, "a"), va("max", g(false, "a", "b"), x)) }},
+		{name: "count by(a)(max by(a,b))", build: func(x refmodel.Expr) refmodel.Expr {
+			return va("count", g(false, "a"), va("max", g(false, "a", "b"), x))
+		}},
 		{name: "sum by(a)(sum without(b))", build: func(x refmodel.Expr) refmodel.Expr { return va("sum", g(false, "a"), va("sum", g(true, "b"), x)) }},
 		{name: "sum without(a)(sum by(a,b))", build: func(x refmodel.Expr) refmodel.Expr { return va("sum", g(true, "a"), va("sum", g(false, "a", "b"), x)) }},
-		{name: "min(max by(b)(sum by(a,b)))", build: func(x refmodel.Expr) refmodel.Expr { return va("min", nil, va("max", g(false, "b"), va("sum", g(false, "a", "b"), x))) }},
+		{name: "min(max by(b)(sum by(a,b)))", build: func(x refmodel.Expr) refmodel.Expr {
+			return va("min", nil, va("max", g(false, "b"), va("sum", g(false, "a", "b"), x)))
+		}},
 		{name: "sum by(c)(sum by(a))", build: func(x refmodel.Expr) refmodel.Expr { return va("sum", g(false, "c"), va("sum", g(false, "a"), x)) }},
 		{name: "sort(sum by(a))", instantOnly: true, build: func(x refmodel.Expr) refmodel.Expr { return va("sort", nil, va("sum", g(false, "a"), x)) }},
 		{name: "sort_desc(max by(b))", instantOnly: true, build: func(x refmodel.Expr) refmodel.Expr { return va("sort_desc", nil, va("max", g(false, "b"), x)) }},
 		{name: "bottomk(1, sum by(b))", build: func(x refmodel.Expr) refmodel.Expr { return tk("bottomk", 1, nil, va("sum", g(false, "b"), x)) }},
-		{name: "avg by(a)(count by(a,b))", build: func(x refmodel.Expr) refmodel.Expr { return va("avg", g(false, "a"), va("count", g(false, "a", "b"), x)) }},
-		{name: "sum by(a)(max by(a)(sum by(a,b)))", build: func(x refmodel.Expr) refmodel.Expr { return va("sum", g(false, "a"), va("max", g(false, "a"), va("sum", g(false, "a", "b"), x))) }},
-		{name: "topk(1) by(a)(sum by(a,b))", build: func(x refmodel.Expr) refmodel.Expr { return tk("topk", 1, g(false, "a"), va("sum", g(false, "a", "b"), x)) }},
+		{name: "avg by(a)(count by(a,b))", build: func(x refmodel.Expr) refmodel.Expr {
+			return va("avg", g(false, "a"), va("count", g(false, "a", "b"), x))
+		}},
+		{name: "sum by(a)(max by(a)(sum by(a,b)))", build: func(x refmodel.Expr) refmodel.Expr {
+			return va("sum", g(false, "a"), va("max", g(false, "a"), va("sum", g(false, "a", "b"), x)))
+		}},
+		{name: "topk(1) by(a)(sum by(a,b))", build: func(x refmodel.Expr) refmodel.Expr {
+			return tk("topk", 1, g(false, "a"), va("sum", g(false, "a", "b"), x))
+		}},
 		{name: "count(sum by(a,b))", build: func(x refmodel.Expr) refmodel.Expr { return va("count", nil, va("sum", g(false, "a", "b"), x)) }},
 		{name: "sum by()(count by(b))", build: func(x refmodel.Expr) refmodel.Expr { return va("sum", g(false), va("count", g(false, "b"), x)) }},
 	}
